@@ -19,6 +19,11 @@ CHECKS["C02"] = dict(cat="exploration", technique="exhaustive enumeration opcode
                   "over the full cross product of a boundary-value grid on the interpreter and on generated code at -O0..-O3; results, flags-as-branches and the bytes of the harness buffer are compared with refinterp, which executes the un-linked IR as MIR.md defines it.",
              note="oracle = core/refinterp.c (my transcription of MIR.md, shares nothing with the library); tuples MIR.md leaves unspecified (division by zero/overflow, over-wide shifts, out-of-range fp->int) are skipped and counted; NaN payloads and the upper half of 32-bit results are not compared",
              ref="§3 C02")
+CHECKS["C01"] = dict(cat="exploration", technique="exhaustive enumeration of complete program families x input grids x optimisation levels, generated code compared with the interpreter",
+             text="Eleven program families (extension chains, binary chains with boundary constants, compare chains, overflow insn/branch pairs, memory access sequences with input-controlled aliasing and alloca, all CFGs of <=2-3 blocks over jmp/bcc/switch/laddr+jmpi terminators with fuel, "
+                  "cold trapping code, calls with live values, fp/long-double chains, register-pressure bodies, pointer-advancing loops) are enumerated completely; every program runs on its whole input grid through MIR_interp and MIR_gen code at -O0..-O3 and results, harness buffers and the external-call log must agree.",
+             note="refinterp is used only to skip (program,input) pairs with behaviour MIR.md leaves unspecified and to mark 32-bit results; two known findings (KNOWN_FINDINGS.txt); members of the known non-terminating class are executed once per shard and otherwise skipped (counted in the evidence)",
+             ref="§3 C01")
 NOT_YET = {}
 def main():
     props = [json.loads(l) for l in open(os.path.join(VERIF, "properties.jsonl"))]
